@@ -18,6 +18,12 @@ class WindowDevice(ADevice):
   def __init__(self, id, length, bounds, w, cbounds=None, c=1):
     super().__init__(id, length, bounds, cbounds, f=WindowPenalty(w, c), w=w, c=c)
 
+  def to_dict(self):
+    ''' `f` is derived from `w` and `c` and is not a constructor parameter. '''
+    data = super().to_dict()
+    del data['f']
+    return data
+
   @property
   def c(self):
     return self._c
